@@ -3,7 +3,7 @@
 use crate::{
     check::{Scene, Trace, Violation},
     ops::{run_client, Handles, Op},
-    scenes::{spawn_probe, SpawnCfg},
+    scenes::{spawn_probe, spawn_probe_on_stream, OwningOrAddr, SpawnCfg, StreamVia},
     vexec::Exec,
     world::{Ask, Note, RoleCfg},
 };
@@ -27,8 +27,16 @@ pub struct ClientSpec {
 
 pub const FULL: [HInit; 6] = [HInit::Addr, HInit::Snd, HInit::Cal, HInit::WAddr, HInit::WSnd, HInit::WCal];
 
+#[derive(Clone, Debug, PartialEq, Eq)]
+pub enum Attach {
+    None,
+    /// stream-attached: how it is spawned, items ready at once, closed after them
+    Stream { via: StreamVia, prefill: Vec<u32>, close: bool },
+}
+
 pub struct ProgScene<X> {
     pub spawn: SpawnCfg,
+    pub attach: Attach,
     pub roles: Vec<RoleCfg>,
     pub clients: Vec<ClientSpec>,
     /// property-specific parameters available to the oracle
@@ -42,8 +50,21 @@ impl<X> Scene for ProgScene<X> {
     }
 
     fn setup(&self, exec: &Exec) {
-        let mut owning = Some(spawn_probe(0, self.spawn));
-        let base = owning.as_ref().unwrap().to_addr();
+        crate::scenes::STREAM.with(|s| *s.borrow_mut() = None);
+        let (mut owning, base) = match &self.attach {
+            Attach::None => {
+                let o = spawn_probe(0, self.spawn);
+                let b = o.to_addr();
+                (Some(o), b)
+            }
+            Attach::Stream { via, prefill, close } => match spawn_probe_on_stream(0, *via, prefill, *close) {
+                OwningOrAddr::Own(o) => {
+                    let b = o.to_addr();
+                    (Some(o), b)
+                }
+                OwningOrAddr::Addr(a) => (None, a),
+            },
+        };
         let mut tables = vec![];
         for cs in &self.clients {
             let mut h = Handles::default();
